@@ -311,12 +311,21 @@ class DefiniteAssignment:
                 if add:
                     cur |= add
                     if len(cur) > MAX_STATES:
-                        # widen: drop all facts, intersect assigned sets
-                        inter = None
-                        for (a, _f) in cur:
-                            inter = a if inter is None else (inter & a)
+                        # widen, first step: one state per set of branch facts (the assigned sets of states that know the same facts are
+                        # intersected: still "assigned on every path that establishes these facts")
+                        groups = {}
+                        for (a, f_) in cur:
+                            groups[f_] = a if f_ not in groups else (groups[f_] & a)
                         cur.clear()
-                        cur.add((inter, frozenset()))
+                        if len(groups) <= MAX_STATES:
+                            for f_, a in groups.items():
+                                cur.add((a, f_))
+                        else:
+                            # second step: drop all facts, intersect assigned sets
+                            inter = None
+                            for a in groups.values():
+                                inter = a if inter is None else (inter & a)
+                            cur.add((inter, frozenset()))
                     work.append(s)
 
     def possibly_undefined(self):
